@@ -91,7 +91,9 @@ def build_model(ck: Checker) -> TransferModel:
     for _ in range(3):
         nxt = [x.ast.targets[0].id for x in body if x.kind == "stmt" and isinstance(x.ast, ast.Assign) and len(x.ast.targets) == 1 and isinstance(x.ast.targets[0], ast.Name)
                and isinstance(x.ast.value, ast.Name) and x.ast.value.id == dir_obj]
-        if len(nxt) == 1:
+        n_defs = sum(1 for x in body if x.kind == "stmt" and isinstance(x.ast, (ast.Assign, ast.AnnAssign, ast.AugAssign))
+                     and any(isinstance(t, ast.Name) and nxt and t.id == nxt[0] for t in (x.ast.targets if isinstance(x.ast, ast.Assign) else [x.ast.target])))
+        if len(nxt) == 1 and n_defs == 1:
             dir_obj = nxt[0]
         else:
             break
